@@ -20,10 +20,14 @@
    Part C: the whole export path of the HAR collector (Execute: generateHAR,
    size decision, export; Export.v): hiding holds for every record handed to
    the exporter whatever the size decision; what is dropped is dropped
-   entirely; the decision reads the declared sizes only. *)
+   entirely; the decision reads the declared sizes only.
+   Part D: the value level (Variants.v): every string is hashed (digest-like
+   ones included), an excluded number keeps its raw token; variant switch with
+   the refutations of "hash once" and "rebuild the excluded subtree". *)
 From Coq Require Import List ZArith Bool.
 From Verif Require Import C16.Model C16.Spec C16.Proofs C16.ProofsAll.
 From Verif Require Import C16.Export C16.ExportSpec C16.ExportProofs.
+From Verif Require Import C16.Variants C16.VariantsProofs.
 Import ListNotations.
 Open Scope Z_scope.
 
@@ -595,4 +599,82 @@ Example C16_export_on_witness :
     [(OutText [], OutJson doc_as)] /\
   execute VHead Hx (mkConfig (Some 4) true [pre_response ++ [46;97]]) side_empty side_chunked =
     [(OutText [], OutJson doc_as)].
+Proof. vm_compute. repeat split; reflexivity. Qed.
+
+(* ================================================================== *)
+(* Part D — the value level: what counts as "a string" and what "verbatim"
+   means for a number (Variants.v).  [obfuscate_json_v v] is the walk with a
+   switch: LHead = /repo; LHashOnce d = a string the detector d accepts is left
+   as it is (seeded change C16-9, d = looks_like_md5); LRebuildExcluded r = an
+   excluded subtree is rebuilt value by value, number tokens re-printed by r
+   (seeded change C16-10, r = float64 round trip). *)
+
+(* /repo is the head variant: Parts A-C speak about obfuscate_json_v LHead *)
+Theorem C16_leaf_variant_head : forall H excl j,
+  obfuscate_json_v LHead H excl j = obfuscate_json H excl j.
+Proof. exact obfuscate_json_v_head. Qed.
+Print Assumptions C16_leaf_variant_head.
+
+(* clause 1, all documents, all strings — digests, UUIDs, the hash of another
+   leaf included: a string leaf is an arbitrary byte list *)
+Theorem C16_hides_every_string : hides_for LHead.
+Proof. exact hides_for_head. Qed.
+Print Assumptions C16_hides_every_string.
+
+(* clause 3: an excluded node comes back as it was written, a number with its
+   raw token (JNum raw _), whatever float64 would make of it *)
+Theorem C16_excluded_kept_as_written : keeps_excluded_for LHead.
+Proof. exact keeps_excluded_for_head. Qed.
+Print Assumptions C16_excluded_kept_as_written.
+
+(* an "already hashed" detector is compatible with the property exactly when it
+   never fires *)
+Theorem C16_hash_once_hides_iff_never_keeps : forall d,
+  hides_for (LHashOnce d) <-> (forall s, d s = false).
+Proof. exact hash_once_hides_iff. Qed.
+Print Assumptions C16_hash_once_hides_iff_never_keeps.
+
+Definition s_md5 : bytes := [53;102;52;100;99;99;51;98;53;97;97;55;54;53;100;54;49;100;56;51;50;55;100;101;98;56;56;50;99;102;57;57].   (* 5f4dcc3b5aa765d61d8327deb882cf99 *)
+
+Theorem C16_hash_once_refuted : ~ hides_for (LHashOnce looks_like_md5).
+Proof. apply (hash_once_refuted looks_like_md5 s_md5). vm_compute. reflexivity. Qed.
+Print Assumptions C16_hash_once_refuted.
+
+(* re-printing the numbers of an excluded subtree breaks "kept verbatim" as soon
+   as one token is printed differently (every token float64 can not hold, and
+   every other spelling: 1E2 -> 100) *)
+Theorem C16_rebuild_excluded_refuted : forall r tok,
+  r tok <> tok -> ~ keeps_excluded_for (LRebuildExcluded r).
+Proof. exact rebuild_excluded_refuted. Qed.
+Print Assumptions C16_rebuild_excluded_refuted.
+
+Definition tok_2p53_1 : bytes := [57;48;48;55;49;57;57;50;53;52;55;52;48;57;57;51].           (* 9007199254740993 *)
+Definition tok_2p53_1_f64 : bytes := [57;46;48;48;55;49;57;57;50;53;52;55;52;48;57;57;50;101;43;49;53].   (* 9.007199254740992e+15 *)
+Definition txt_2p53_1 : bytes := [57;48;48;55;49;57;57;50;53;52;55;52;48;57;57;50;46;48;48].    (* 9007199254740992.00 *)
+Definition reprint_f64 : bytes -> bytes :=
+  reprint_table [(tok_2p53_1, tok_2p53_1_f64); ([49;69;50], [49;48;48])].  (* 1E2 -> 100 *)
+Definition e_id : bytes := [46;105;100].   (* ".id" *)
+Definition doc_token : json := JObj [(s_id, JStr s_md5); (s_name, JStr [97])].
+Definition doc_order : json := JObj [(s_id, JNum tok_2p53_1 txt_2p53_1); (s_name, JStr [97])].
+
+Example C16_leaf_variants_on_witnesses :
+  (* /repo hashes the digest-like string; the detector keeps it (and nothing else:
+     upper case and 31 characters do not look like an MD5 digest) *)
+  obfuscate_json_v LHead Hx [] doc_token =
+    JObj [(s_id, JStr (35 :: s_md5)); (s_name, JStr [35;97])] /\
+  obfuscate_json_v (LHashOnce looks_like_md5) Hx [] doc_token =
+    JObj [(s_id, JStr s_md5); (s_name, JStr [35;97])] /\
+  looks_like_md5 (tl s_md5) = false /\ looks_like_md5 (70 :: tl s_md5) = false /\
+  (* /repo keeps the excluded number token; the rebuilt one is another number;
+     not excluded, both hash the two-decimal text *)
+  obfuscate_json_v LHead Hx [e_id] doc_order =
+    JObj [(s_id, JNum tok_2p53_1 txt_2p53_1); (s_name, JStr [35;97])] /\
+  obfuscate_json_v (LRebuildExcluded reprint_f64) Hx [e_id] doc_order =
+    JObj [(s_id, JNum tok_2p53_1_f64 txt_2p53_1); (s_name, JStr [35;97])] /\
+  obfuscate_json_v (LRebuildExcluded reprint_f64) Hx [] doc_order =
+    obfuscate_json_v LHead Hx [] doc_order /\
+  (* the rebuilt subtree also loses repeated keys that /repo keeps *)
+  obfuscate_json_v LHead Hx [[]] doc_dup = doc_dup /\
+  obfuscate_json_v (LRebuildExcluded reprint_f64) Hx [[]] doc_dup =
+    JObj [(s_a, JStr [115]); (s_b, JBool true)].
 Proof. vm_compute. repeat split; reflexivity. Qed.
